@@ -333,6 +333,46 @@ pub fn run(run: &mut Run) -> PResult {
         }
         run.generator("every in-range index tuple for five-slot selection", "exhaustive", Some(3 * (7776 + 16807)), n, n, "6^5 on Six and 7^5 on Seven, over three kinds of stored words: distinct sentinels, real cards, flagged cards");
     }
+    // soak: more than 2^30 (thorough: 2^32) calls of the selection and setter functions in one process
+    // (behaviour that depends on a call count)
+    if !run.is_twin() {
+        use rayon::prelude::*;
+        let per_thread: u64 = if thorough { (1u64 << 32) / 16 + (1 << 16) } else { (1u64 << 30) / 16 + (1 << 16) };
+        let bad: Option<String> = (0..16u64).into_par_iter().find_map_any(|k| {
+            let base7: [u32; 7] = core::array::from_fn(|i| 0xC000_0000 + (k as u32) * 0x100 + i as u32);
+            let mut s7 = Seven::from(base7);
+            let s6 = Six::from([base7[0], base7[1], base7[2], base7[3], base7[4], base7[5]]);
+            let mut model = base7;
+            for n in 0..per_thread {
+                let p = [(n % 7) as u8, ((n / 7) % 7) as u8, ((n / 49) % 7) as u8, 3, ((n + 5) % 7) as u8];
+                let got = s7.five_from_permutation(p).to_arr();
+                let want = [model[p[0] as usize], model[p[1] as usize], model[p[2] as usize], model[3], model[p[4] as usize]];
+                if got != want {
+                    return Some(format!("call number ~{} (x16 threads) of Seven::five_from_permutation({:?}) on [{}] gave [{}], the selected slots hold [{}]", n, p, words(&model), words(&got), words(&want)));
+                }
+                let q = [(n % 6) as u8, ((n / 6) % 6) as u8, 2, ((n / 36) % 6) as u8, 5];
+                let got6 = s6.five_from_permutation(q).to_arr();
+                let want6 = [base7[q[0] as usize], base7[q[1] as usize], base7[2], base7[q[3] as usize], base7[5]];
+                if got6 != want6 {
+                    return Some(format!("call number ~{} (x16 threads) of Six::five_from_permutation({:?}) gave [{}], the selected slots hold [{}]", n, q, words(&got6), words(&want6)));
+                }
+                if n % 64 == 0 {
+                    let w = (n as u32).wrapping_mul(2654435761);
+                    s7.set_fifth(w);
+                    model[4] = w;
+                    if s7.to_arr() != model {
+                        return Some(format!("after call number ~{} of Seven::set_fifth the container holds [{}], written [{}]", n, words(&s7.to_arr()), words(&model)));
+                    }
+                }
+            }
+            None
+        });
+        let total = per_thread * 16 * 2;
+        run.generator("soak: selection and setter calls counted past 2^30 (thorough 2^32) in one process", "call-count soak", None, total, 0, "16 threads, every result compared with the array model");
+        if let Some(m) = bad {
+            return run.violation("C19.soak", "call-count", json!({"calls": total}), &m);
+        }
+    }
     // R: histories
     {
         let st = engine::RStats::new();
@@ -380,11 +420,26 @@ pub fn run(run: &mut Run) -> PResult {
 }
 
 pub fn check_case(clause: &str, case: &Value) -> Result<(), String> {
-    if clause.ends_with(".after_disturbance") {
+    if clause.ends_with(".after_disturbance") || clause.ends_with(".concurrent") || clause.ends_with(".concurrent_cold_start") {
         return super::common::replay_after_disturbance(case, check_case);
     }
     match clause {
         "C19.fuzz" => super::fuzz::check_fuzz_case(case),
+        "C19.soak" => {
+            // replay = the soak itself, single-threaded up to the recorded number of calls
+            let calls = case["calls"].as_u64().unwrap_or(1 << 31);
+            let base7: [u32; 7] = core::array::from_fn(|i| 0xC000_0000 + i as u32);
+            let s7 = Seven::from(base7);
+            for n in 0..calls {
+                let p = [(n % 7) as u8, ((n / 7) % 7) as u8, ((n / 49) % 7) as u8, 3, ((n + 5) % 7) as u8];
+                let got = s7.five_from_permutation(p).to_arr();
+                let want = [base7[p[0] as usize], base7[p[1] as usize], base7[p[2] as usize], base7[3], base7[p[4] as usize]];
+                if got != want {
+                    return Err(format!("call number {} of Seven::five_from_permutation({:?}) gave [{}], the selected slots hold [{}]", n, p, words(&got), words(&want)));
+                }
+            }
+            Ok(())
+        }
         _ => {
             let n = case["size"].as_u64().ok_or("size")? as usize;
             if !(2..=7).contains(&n) {
